@@ -271,33 +271,10 @@ class SctpOrigin(Component):
     @staticmethod
     def _history(case, tsnA, tsnB, ssn=0):
         from harness import sctp_world as W
-        w = W.World(dict(case, tsnA=tsnA, tsnB=tsnB))
-        restore = None
-        if ssn:
-            # white-box origin shift: a stream that has no state yet starts at `ssn` instead of 0, on the sending side
-            # (`_outbound_stream_seq.get(sid, 0)`) and on the receiving side (`InboundStream().sequence_number`)
-            class _Seq(dict):
-                def get(self, k, default=None):
-                    return dict.get(self, k, ssn if default == 0 else default)
-            m = w.ep["A"].m
-            cls = getattr(m, "InboundStream", None)
-            ok = cls is not None and all(isinstance(getattr(w.ep[n].t, "_outbound_stream_seq", None), dict) for n in "AB")
-            if ok:
-                for n in "AB":
-                    w.ep[n].t._outbound_stream_seq = _Seq(w.ep[n].t._outbound_stream_seq)
-                orig_init = cls.__init__
-
-                def init(self, *a, **k):
-                    orig_init(self, *a, **k)
-                    self.sequence_number = ssn
-                cls.__init__ = init
-                restore = lambda: setattr(cls, "__init__", orig_init)
-        try:
-            w.run()
-            healed = w.heal(4000)
-        finally:
-            if restore:
-                restore()
+        # the origin of the stream sequence numbers is shifted by the world itself (sctp_world.World, `ssn`)
+        w = W.World(dict(case, tsnA=tsnA, tsnB=tsnB, ssn=(ssn or None)))
+        w.run()
+        healed = w.heal(4000)
         hist = []
         for n in "AB":
             evs = []
